@@ -53,7 +53,11 @@ func (rcScenario) Config(r *rand.Rand, small bool) string {
 		}
 		progs[i] = strings.Join(ops, "+")
 	}
-	return fmt.Sprintf("n=%d ops=%s", n, strings.Join(progs, "/"))
+	pre := 0
+	if !small && r.Intn(4) == 0 {
+		pre = 1 + r.Intn(3) // the counter the threads use was restored from JSON: total and rolling sum differed at snapshot time
+	}
+	return fmt.Sprintf("n=%d ops=%s pre=%d", n, strings.Join(progs, "/"), pre)
 }
 
 func (rcScenario) Build(cfg string) ([]func(), func(*vsched.Sched) []string) {
@@ -61,6 +65,17 @@ func (rcScenario) Build(cfg string) ([]func(), func(*vsched.Sched) []string) {
 	start := time.Unix(4_000_000_000, 0)
 	width := time.Second
 	ctr := faststats.NewRollingCounter(width, n, start)
+	pre := cfgInt(cfg, "pre")
+	if pre > 0 {
+		// `pre` events stamped before the start count in TotalSum only; then the counter goes through its own JSON
+		orig := faststats.NewRollingCounter(width, n, start)
+		for i := 0; i < pre; i++ {
+			orig.Inc(start.Add(-time.Hour))
+		}
+		if b, err := json.Marshal(&orig); err != nil || json.Unmarshal(b, &ctr) != nil {
+			panic("rc scenario: JSON round trip failed")
+		}
+	}
 	nameVars(&ctr, "rc")
 	var rb *faststats.RollingBuckets
 	_ = rb
@@ -108,8 +123,8 @@ func (rcScenario) Build(cfg string) ([]func(), func(*vsched.Sched) []string) {
 	}
 	monitor := func(s *vsched.Sched) []string {
 		var problems []string
-		if got := ctr.TotalSum(); got != int64(incs) {
-			problems = append(problems, fmt.Sprintf("TotalSum=%d after %d Inc calls", got, incs))
+		if got := ctr.TotalSum(); got != int64(incs+pre) {
+			problems = append(problems, fmt.Sprintf("TotalSum=%d after %d Inc calls on a counter restored with total %d", got, incs, pre))
 		}
 		// newest index of the ring, read through the JSON encoding (which does not move the window)
 		if b, err := json.Marshal(&ctr); err == nil {
